@@ -259,6 +259,23 @@ func (x *Exec) solveAllSplit(obls []*Obligation, dir string, timeoutS int, agree
 		}
 		out = append(out, o)
 	}
+	// second chance for undecided obligations: a timeout (or an unknown given up under a time limit) on a loaded machine
+	// is not a refutation. Whatever is still timeout/unknown after the first pass is solved once more with three times
+	// the limit and half the parallelism; only what stays undecided is reported. (Nothing is retried on a quiet machine
+	// with an unchanged tree: the set is empty.)
+	var again []*Obligation
+	for _, o := range out {
+		if o.Kind != "canary" && o.Failed == "" && !x.noRetry[o.Name] && o.Result != nil && (o.Result.Status == "timeout" || o.Result.Status == "unknown") {
+			again = append(again, o)
+		}
+	}
+	if len(again) > 0 && len(again) <= 64 {
+		p2 := par / 2
+		if p2 < 2 {
+			p2 = 2
+		}
+		x.solveAll(again, dir, timeoutS*3, agree, p2)
+	}
 	return out
 }
 
